@@ -133,6 +133,13 @@ def renamed_shuffled(atoms, bonds, rng):
     return [dict(a, name=nm) for a, nm in zip(atoms, names)], bonds
 
 
+def renamed_case(atoms, bonds, style):
+    """names with lower-case letters (element-cased "Cl1", all lower "c1")"""
+    if style == "mixed":
+        return [dict(a, name=f"{a['type'].split('.')[0][:1].upper()}l{k}") for k, a in enumerate(atoms, start=1)], bonds
+    return [dict(a, name=f"{a['type'].split('.')[0][:1].lower()}x{k}") for k, a in enumerate(atoms, start=1)], bonds
+
+
 def permuted(atoms, bonds, rng):
     order = list(range(len(atoms)))
     rng.shuffle(order)
@@ -323,6 +330,7 @@ def run(ctx):
         ia, ib = with_counter_ion(atoms, bonds)
         for variant, (a_, b_) in (("file", (None, None)), ("rewritten", (atoms, bonds)), ("renamed", (ra, rb)),
                                   ("renamed-descending", renamed_descending(atoms, bonds)), ("renamed-shuffled", renamed_shuffled(atoms, bonds, rng)),
+                                  ("renamed-mixedcase", renamed_case(atoms, bonds, "mixed")), ("renamed-lowercase", renamed_case(atoms, bonds, "lower")),
                                   *([] if ctx.quick else [(f"renamed-shuffled{k}", renamed_shuffled(atoms, bonds, rng)) for k in range(2, 8)]),
                                   *([] if ctx.quick else [(f"permuted{k}", permuted(atoms, bonds, rng)[:2]) for k in range(2, 6)]),
                                   ("permuted", (pa, pb)), ("counter-ion", (ia, ib))):
@@ -399,6 +407,14 @@ def run(ctx):
     }
     cjobs = [{"name": k, "pdb": gen.pdb_text(v), "mol2": mol2, "opts": o}
              for k, v in layouts.items() for o in ([[]] if ctx.quick else [[], ["--noopt"], ["--whitespace"]])]
+    # a ligand that carries the chain, number and some atom names of a protein residue (a docked ligand numbered from 1)
+    ren = {"CAB": "C", "CAA": "CB", "OAC": "OX1", "OAD": "OX2", "HAA": "HX1", "HAB": "HX2", "HAC": "HX3"}
+    atoms_r = [dict(a, name=ren.get(a["name"], a["name"])) for a in atoms]
+    mol2_r = write_mol2(atoms_r, bonds)
+    lig_r = [dict(a, name=ren.get(a["name"], a["name"]), chain="A", resseq=1) for a in lig1]
+    lig_far = [dict(a, name=ren.get(a["name"], a["name"]), chain="A", resseq=500) for a in lig1]
+    for k, v in (("ligand-numbered-like-residue-1", [pep + wat, lig_r]), ("ligand-protein-like-names", [pep + wat, lig_far])):
+        cjobs.append({"name": k, "pdb": gen.pdb_text(v), "mol2": mol2_r, "opts": []})
     cres = core.pmap(_complex_job, cjobs, chunksize=1)
     for j, res in zip(cjobs, cres):
         ctx.evaluations += 1
